@@ -8,7 +8,7 @@ hooks = subprocess.run(["git", "-C", "/repo", "log", "--format=%h %s"], capture_
 hook_commits = [l.split()[0] for l in hooks if "verif-hooks" in l]
 man = {
     "version": 1,
-    "setup_cmd": "cd /verif/harness && CARGO_NET_OFFLINE=true cargo build --release --offline -p vpharness",
+    "setup_cmd": "cd /verif && ./run setup",
     "hooks": {
         "guard": "cargo feature `verif-hooks` (rustic_core and rustic_backend)",
         "enable": "the harness workspace depends on /repo/crates/{core,backend} by path with features=[\"verif-hooks\"]; ./run rebuilds it from /repo's working tree on every invocation",
